@@ -10,6 +10,7 @@ WORK = os.path.join(VERIF, '.work')
 COQ = os.path.join(VERIF, 'coq')
 NPROC = 16
 DRIVER_TIMEOUT = int(os.environ.get('VERIF_DRIVER_TIMEOUT', '120'))
+DRIVER_BATCH = int(os.environ.get('VERIF_DRIVER_BATCH', '20000'))
 
 CFLAGS = ['-std=gnu99', '-g', '-O1', '-fsanitize=address,undefined', '-fno-sanitize-recover=all',
           '-fno-omit-frame-pointer', '-D_DEFAULT_SOURCE', '-DSYSTEM_ENDIANNESS_LITTLE',
@@ -234,14 +235,40 @@ def run_driver(exe, lines, is_c):
     pending = lines
     env = dict(os.environ, ASAN_OPTIONS='detect_leaks=1:abort_on_error=0:exitcode=99:allocator_may_return_null=1',
                UBSAN_OPTIONS='print_stacktrace=0:exitcode=98')
-    while pending:
+    cmd = [exe] if is_c else ['sh', '-c', 'ulimit -s 2000000 2>/dev/null || true; exec "$0"', exe]
+    hangs = [0]
+    def once(batch):
+        # after three confirmed hangs the verdict is settled: do not spend the full limit on every further one
+        limit = DRIVER_TIMEOUT if hangs[0] < 3 else min(DRIVER_TIMEOUT, 15)
         try:
-            cmd = [exe] if is_c else ['sh', '-c', 'ulimit -s 2000000 2>/dev/null || true; exec "$0"', exe]
-            p = subprocess.run(cmd, input='\n'.join(pending) + '\n', capture_output=True, text=True, env=env, timeout=DRIVER_TIMEOUT)
-            rc, out, err = p.returncode, p.stdout, p.stderr
+            p = subprocess.run(cmd, input='\n'.join(batch) + '\n', capture_output=True, text=True, env=env, timeout=limit)
+            return p.returncode, p.stdout, p.stderr
         except subprocess.TimeoutExpired as e:
-            rc, out, err = 97, (e.stdout or b'').decode() if isinstance(e.stdout, bytes) else (e.stdout or ''), \
+            return 97, (e.stdout or b'').decode() if isinstance(e.stdout, bytes) else (e.stdout or ''), \
                 (e.stderr or b'').decode() if isinstance(e.stderr, bytes) else (e.stderr or '')
+    # the time limit is meant for ONE case that hangs: feed the driver bounded batches so that a slow machine or a huge
+    # case list cannot exhaust it, and confirm a suspected hang by running the case on its own
+    queue = [lines[k:k + DRIVER_BATCH] for k in range(0, len(lines), DRIVER_BATCH)]
+    pending = []
+    while pending or queue:
+        if not pending:
+            pending = queue.pop(0)
+        rc, out, err = once(pending)
+        if rc == 97:
+            ann = re.findall(r'^@case (\S+)', err, flags=re.M)
+            cand = [l for l in pending if ann and l.split(' ', 1)[0] == ann[-1]]
+            if cand and hangs[0] < 3:
+                rc1, out1, err1 = once(cand)
+                if rc1 == 97:
+                    hangs[0] += 1
+                if rc1 == 0:
+                    # not a hang: the batch as a whole ran out of time; keep what was done and go on behind it
+                    for l in (out + '\n' + out1).split('\n'):
+                        if l:
+                            i = l.split(' ', 1)[0]
+                            obs[i] = l[len(i) + 1:] if ' ' in l else ''
+                    pending = [l for l in pending if l.split(' ', 1)[0] not in obs]
+                    continue
         done = set()
         for l in out.split('\n'):
             if not l:
@@ -250,7 +277,8 @@ def run_driver(exe, lines, is_c):
             obs[i] = l[len(i) + 1:] if ' ' in l else ''
             done.add(i)
         if rc == 0:
-            break
+            pending = []
+            continue
         if not is_c:
             # the model driver must never fail
             rest = [l for l in pending if l.split(' ', 1)[0] not in done]
@@ -258,7 +286,8 @@ def run_driver(exe, lines, is_c):
                 obs[rest[0].split(' ', 1)[0]] = 'MODEL-DRIVER-FAILED rc=%d %s' % (rc, err[-200:].replace('\n', ' '))
                 pending = rest[1:]
                 continue
-            break
+            pending = []
+            continue
         announced = re.findall(r'^@case (\S+)', err, flags=re.M)
         culprit = announced[-1] if announced else None
         kind = 'crash rc=%d' % rc
@@ -279,12 +308,14 @@ def run_driver(exe, lines, is_c):
             if not rest:
                 if 'lsan' in kind:
                     obs['_leak'] = 'SAN ' + kind
-                break
+                pending = []
+                continue
             culprit = rest[0].split(' ', 1)[0]
         if 'lsan' in kind and culprit in done:
             # leak reported at exit: attribute by bisection later; record globally
             obs['_leak'] = 'SAN ' + kind + ' ' + re.sub(r'\s+', ' ', err[-400:])
-            break
+            pending = []
+            continue
         obs[culprit] = 'SAN ' + kind
         idx = [k for k, l in enumerate(pending) if l.split(' ', 1)[0] == culprit]
         pending = pending[idx[0] + 1:] if idx else []
